@@ -29,7 +29,9 @@ ASSUMPTIONS = ["accuracy bound 200 (atol + rtol max|y|) exp(|mu| T) against the 
 
 SHAPES = [[2], [1], [3], [2, 2], [2, 1, 2]]
 METHOD_KEYS = ["RK45", "RK45CK", "RK87", "DOPRI45", "class:RK45CKSolver", "class:RK8713MSolver", "Runge-Kutta-Cash-Karp", "Dormand-Prince", "RK4", "class:RK4Solver",
-               "class:LobattoIIIC4", "class:ImplicitMidpoint", "AHE"]
+               "class:LobattoIIIC4", "class:ImplicitMidpoint", "AHE",
+               # classes made by generate_richardson_integrator (reachable only by class), incl. bases flagged symplectic
+               "class:Rich2:ImplicitMidpoint", "class:Rich3:RK4Solver"]
 
 
 @st.composite
@@ -62,6 +64,8 @@ def _case(draw):
         tol = max(tol, 1e-5)        # second-order pair: keep the run below a few thousand steps
     if method in ("class:LobattoIIIC4", "class:ImplicitMidpoint"):
         tol = max(tol, 1e-6)
+    if method.startswith("class:Rich"):
+        tol = 1e-4 if "RK4" not in method else max(tol, 1e-6)      # extrapolated implicit bases: keep a case within seconds
     return dict(part="facade", method=method, shape=shape, A=A, y0=draw(st.lists(st.integers(-4, 4).map(lambda k: k / 2.0), min_size=n, max_size=n)),
                 args=args, sig_defaults=(draw(st.sampled_from([None, None, "all", "one_required"])) if nargs >= 1 else draw(st.sampled_from([None, None, "all"]))),
                 t0=t0, tf=tf, t_eval=t_eval, te_kind=te_kind,
@@ -165,7 +169,7 @@ def check(case):
     except Exception as e:
         if exc_origin(e)[0] == "harness":
             raise
-        if isinstance(getattr(e, "__cause__", None), de.exception_types.FailedToMeetTolerances) and mname in ("LobattoIIIC4", "ImplicitMidpoint"):
+        if isinstance(getattr(e, "__cause__", None), de.exception_types.FailedToMeetTolerances) and (mname in ("LobattoIIIC4", "ImplicitMidpoint") or "Rich" in case["method"]):
             return [], dict(nontrivial=False, labels=labels + ["reported_failure"])
         return [V("solve_ivp_raised", "solve_ivp({}, t_span=({!r}, {!r}), t_eval {}, max_step {}, first_step {}) raised {!r} caused by {!r}".format(
             mname, case["t0"], case["tf"], case["te_kind"], case["max_step"], case["first_step"], e, getattr(e, "__cause__", None)), sig + exc_sig(e), **attrs)], dict(nontrivial=False, labels=labels)
